@@ -71,6 +71,9 @@ async def open_ws_server_transport(spec: str) -> Transport:
                 f'from {connection.remote_address}'
             )
             self.connection = connection
+            # A new client's stream starts at a packet boundary, whatever state the
+            # previous client's stream was left in.
+            self.source.parser.reset()
             # pylint: disable=no-member
             try:
                 async for packet in connection:
